@@ -1,9 +1,3 @@
 #include "exec.hpp"
-void Exec::op_write(Client &) { T("  (io ops not built yet)"); }
-void Exec::op_read(Client &) { T("  (io ops not built yet)"); }
-void Exec::op_damage(Client &) { T("  (io ops not built yet)"); }
-void Exec::op_foreign(Client &) { T("  (io ops not built yet)"); }
-void Exec::op_wbasis(Client &) { T("  (io ops not built yet)"); }
-void Exec::op_rbasis(Client &) { T("  (io ops not built yet)"); }
 void Exec::op_lu(Client &) { T("  (lu ops not built yet)"); }
 void Exec::op_esolver(Client &) { T("  (cli ops not built yet)"); }
